@@ -507,8 +507,8 @@ func c11Oracle(c *fw.Ctx, cas c11Case, root string, im fsImage, touched string, 
 		fail("new-mail-not-listed", fmt.Sprintf("mail delivered after the crash is not retrievable: %v", err))
 		return
 	}
-	if o := sys.Observe(m); o.BodyErr != "" || !strings.Contains(o.Body, "new mail") {
-		fail("new-mail-unreadable", "mail delivered after the crash cannot be read back")
+	if o := sys.Observe(m); o.BodyErr != "" || o.Body != "Subject: after crash\r\n\r\nnew mail\r\n" || o.Size != int64(len(o.Body)) {
+		fail("new-mail-unreadable", fmt.Sprintf("mail delivered after the crash does not read back as delivered: %d bytes (size says %d) %s, err %q", len(o.Body), o.Size, clipS(o.Body, 80), o.BodyErr))
 		return
 	}
 	// (e) life goes on from the recovered state (a non-initial state no test starts from): the
@@ -568,7 +568,7 @@ func c11Oracle(c *fw.Ctx, cas c11Case, root string, im fsImage, touched string, 
 	}
 	sh2.Reopen()
 	after, err := c11Observe(sh2.Store, []string{touched})
-	if err != nil || len(after[touched]) != len(want)+1 || after[touched][len(want)].Subject != "z" || after[touched][len(want)].BodyErr != "" {
+	if err != nil || len(after[touched]) != len(want)+1 || after[touched][len(want)].Subject != "z" || after[touched][len(want)].Body != "Subject: z\r\n\r\nnew mail\r\n" {
 		fail("later-state-wrong", fmt.Sprintf("after the crash, the removal of every message and one new delivery, a freshly opened store lists %d message(s) for mailbox %q (err=%v); exactly the new one should be there", len(after[touched]), touched, err))
 	}
 }
